@@ -6,7 +6,7 @@ from . import c09
 
 RULE = ('byte strings up to 64 KiB of six kinds: arbitrary bytes (uniform, printable-biased, token-character-biased, with and '
         'without BOMs and invalid UTF-8), random sequences of valid tokens, programs printed from the reference grammar with '
-        'token-level mutations (delete / duplicate / swap / replace, 1-4 per program), every literal of the C09 enumeration '
+        'token-level mutations (delete / duplicate / swap / replace, 1-4 per program; for a few programs and fixtures every single lexeme deleted and doubled), every literal of the C09 enumeration '
         '(valid, out of range, overflowing) in every literal context (initial value, expression, subrange and array bounds, '
         'string length, case selector, task interval and priority, repeat count), bracket / call / subscript / statement '
         'nesting to depth 12, OSCAT description markers in every order and multiplicity up to 4, sets of 1-3 files with 0-300 diagnostics of up to four rules, and flat chains (operators, field selectors, subscripts, statements, ELSIF arms) up to the size '
@@ -232,6 +232,45 @@ def build_cases(ctx, rng, lits, kws):
         edges = list({(rng.randrange(n), rng.randrange(n)) for _ in range(rng.randint(n, 3 * n))})
         t = c07.realise_fb(n, edges, rng)[0] if i % 2 else c07.realise_type(n, edges, rng, 'mixed')[0]
         add('decl-graph', t, sub=f'{n}:{len(edges)}')
+    # array types that contain each other or themselves (the declaration sort sees no edge for an element type), with constant
+    # and plain variables of those types
+    for i in range(40 if q else 600):
+        n = rng.randint(1, 5)
+        outs = [rng.choice([None] + list(range(n))) for _ in range(n)]
+        tys = ''.join(f'  A{j} : ARRAY[1..2] OF {"INT" if outs[j] is None else "A%d" % outs[j]};\n' for j in range(n))
+        vs = ''.join(f'  c{j} : A{j};\n' for j in range(n))
+        add('decl-graph', f'TYPE\n{tys}END_TYPE\nFUNCTION_BLOCK FBA\nVAR CONSTANT\n{vs}END_VAR\nVAR\n{vs.replace("c", "v")}END_VAR\nEND_FUNCTION_BLOCK\n', sub=f'arrays:{n}')
+    # every single lexeme of a text deleted, and every single lexeme doubled (systematic, where the random mutants only sample):
+    # a few generated programs and a few repository fixtures per run
+    def lexemes(text):
+        return [(m.start(), m.end()) for m in re.finditer(r"\(\*.*?\*\)|'[^']*'|\"[^\"]*\"|[A-Za-z_][A-Za-z0-9_]*|[0-9][0-9_.#A-Fa-f]*|:=|=>|\.\.|\*\*|<>|<=|>=|\S", text, re.S)]
+    sysm = []
+    for i in range(3 if q else 40):
+        g = refgrammar.Gen(rng, kws)
+        lex, lib = g.library(1)
+        sysm.append(('grammar', refgrammar.spell(lex)))
+    fxs = [(n, d.decode('utf-8')) for n, d in fx_list(core.REPO) if len(d) < 6000 and d.isascii()]
+    if q:
+        # the smallest fixture for each of the rarer constructs, and one more at random
+        picked = {}
+        for marker in ('VAR_CONFIG', 'INITIAL_STEP', 'STRUCT', 'ARRAY', 'CASE'):
+            cand = sorted([x for x in fxs if marker in x[1]], key=lambda x: len(x[1]))
+            if cand: picked[cand[0][0]] = cand[0]
+        extra = rng.choice(fxs) if fxs else None
+        if extra: picked[extra[0]] = extra
+        chosen_fx = list(picked.values())
+    else:
+        chosen_fx = fxs
+    for n, t in chosen_fx: sysm.append((n, t))
+    for name, t in sysm:
+        lx = lexemes(t)
+        # runs of two and three neighbouring lexemes deleted as well
+        for run in (2, 3):
+            for k in range(len(lx) - run + 1):
+                add('lexeme-deleted', t[:lx[k][0]] + t[lx[k + run - 1][1]:], sub=f'{name[-20:]}:{run}')
+        for (a, b) in lx:
+            add('lexeme-deleted', t[:a] + t[b:], sub=name[-24:])
+            if not q or rng.random() < 0.3: add('lexeme-doubled', t[:b] + ' ' + t[a:b] + t[b:], sub=name[-24:])
     lit_cases = c09.int_cases() + c09.real_cases() + c09.dur_cases() + c09.tod_cases() + c09.date_cases() + c09.str_cases()
     rng.shuffle(lit_cases)
     extremes = ['340282366920938463463374607431768211455', '340282366920938463463374607431768211456', '170141183460469231731687303715884105728', '18446744073709551616',
@@ -274,6 +313,13 @@ def build_cases(ctx, rng, lits, kws):
         add('fixture', data, sub=name)
         for _ in range(1 if q else 12): add('fixture-damaged', damage(rng, data), sub=name)
     return cases
+
+
+def fx_list(repo):
+    out = []
+    for f in sorted(glob.glob(os.path.join(repo, 'compiler', '**', '*.st'), recursive=True)):
+        if '/target/' not in f: out.append((os.path.relpath(f, repo), open(f, 'rb').read()))
+    return out
 
 
 def parse_total(o):
